@@ -35,6 +35,10 @@ type Case struct {
 	Dag   []Chg    `json:"dag"` // root first
 	Hists [][]Step `json:"hists"`
 	Tags  []string `json:"tags,omitempty"`
+	// kind "pool" (pool.go): several independent trees (Dag = all their changes, disjoint ids) + one event trace
+	Level string `json:"level,omitempty"` // tree | ot
+	Exec  string `json:"exec,omitempty"`  // nested | nested1 | co
+	Ev    []PEv  `json:"ev,omitempty"`
 }
 
 type Obs struct {
@@ -262,9 +266,15 @@ type runner struct {
 	w       *World
 	out     *vlib.Writer
 	samples []interface{}
+	// one sample of an interleaved-trees case
+	poolSample bool
 }
 
 func (r *runner) run(c Case) {
+	if c.Kind == "pool" {
+		r.runPool(c)
+		return
+	}
 	r.w.Tick()
 	dm := dagMap(c.Dag)
 	obs := make([][]Obs, len(c.Hists))
@@ -392,7 +402,7 @@ func main() {
 		maxN = 4
 	}
 	exh := 0
-	for n := 1; n <= maxN && part != "rej" && part != "oid"; n++ {
+	for n := 1; n <= maxN && part != "rej" && part != "oid" && part != "pool"; n++ {
 		exh += exhaustiveTree(r, rng, n)
 	}
 	// 2. random DAGs on the Tree type
@@ -400,7 +410,7 @@ func main() {
 	if thorough {
 		nTree = 2000 * o.Budget
 	}
-	if part == "rej" || part == "oid" {
+	if part == "rej" || part == "oid" || part == "pool" {
 		nTree = 0
 	}
 	for k := 0; k < nTree; k++ {
@@ -418,7 +428,7 @@ func main() {
 	if thorough {
 		nOT = 900 * o.Budget
 	}
-	if part == "rej" || part == "oid" {
+	if part == "rej" || part == "oid" || part == "pool" {
 		nOT = 0
 	}
 	for k := 0; k < nOT; k++ {
@@ -439,7 +449,7 @@ func main() {
 	if thorough {
 		nRej = 600 * o.Budget
 	}
-	if part == "base" || part == "oid" {
+	if part == "base" || part == "oid" || part == "pool" {
 		nRej = 0
 	} else {
 		famN = rejFamily(r)
@@ -453,7 +463,7 @@ func main() {
 	if thorough {
 		nOid = 700 * o.Budget
 	}
-	if part == "rej" || part == "base" {
+	if part == "rej" || part == "base" || part == "pool" {
 		nOid = 0
 	}
 	if part == "oid" || part == "" {
@@ -465,13 +475,24 @@ func main() {
 		g := rng.Fork(uint64(3000000 + k))
 		r.run(genOid(w, g))
 	}
+	// 6. interleaved independent trees: readers in progress while other trees are read / grown (shared iterator pool)
+	nPool := 0
+	if part == "" || part == "pool" {
+		n := 110 * o.Budget
+		if thorough {
+			n = 1500 * o.Budget
+		}
+		nPool = poolAll(r, rng, n)
+	}
 	r.out.Finish("one case = one DAG with several arrival histories (permutation, partition into batches, duplicates, "+
 		"reopen points); otv cases: object trees with the real validator, DAG extended by changes that fail validation, "+
 		"histories with deliveries that attach and are rejected (rollback) next to a clean history over the same sets "+
 		"(non-trivial only if a delivery was rejected after attaching); oi cases: object trees with local AddContent steps (non-trivial only if a "+
-		"local change was created on a tree with >= 2 heads); every object-tree step carries the ranking of the stored changes by their real OrderId strings; generators: exhaustive DAGs with <= maxN non-root changes x all id assignments x arrival orders on the "+
+		"local change was created on a tree with >= 2 heads); pool cases: 2-4 independent trees with disjoint ids and one flat trace of additions, whole reads and "+
+		"readers in progress (open / next / close) executed with nested callbacks on one goroutine or with one goroutine per reader sequentialised by handshakes under GOMAXPROCS(1) "+
+		"(non-trivial only if some reader was handed changes after ANOTHER tree had been sorted since the reader was opened); every object-tree step carries the ranking of the stored changes by their real OrderId strings; generators: exhaustive DAGs with <= maxN non-root changes x all id assignments x arrival orders on the "+
 		"Tree type, random DAGs up to 200 changes on the Tree type, honest DAGs authored by 2-4 real peers (snapshots, concurrent "+
 		"snapshots, reduced trees) replayed on object trees over any-store storage; a case is non-trivial if the DAG has >= 3 "+
 		"changes, branches or merges, and is replayed in >= 2 histories; distinct by full case term",
-		r.samples, map[string]interface{}{"exhaustive_dags": exh, "max_n": maxN, "reject_family_cases": famN})
+		r.samples, map[string]interface{}{"exhaustive_dags": exh, "max_n": maxN, "reject_family_cases": famN, "pool_cases": nPool})
 }
